@@ -278,7 +278,10 @@ func (v *Verifier) callMods(fx *fnExec, c *ssa.CallCommon, ms *modSet, local boo
 		for _, h := range ctr.Hooks {
 			for _, a := range h.Assigns {
 				if a.Kind == "assign" || a.Kind == "havoc" {
-					ms.ghosts[ghostRoot(a.LHS)] = true
+					// only package-level ghost state is shared between a callee and its callers
+					if _, shared := v.cs.Ghosts[ghostRoot(a.LHS)]; shared {
+						ms.ghosts[ghostRoot(a.LHS)] = true
+					}
 				}
 			}
 		}
@@ -348,6 +351,7 @@ func (fx *fnExec) loopMods(li *loopInfo) *modSet {
 		for _, h := range fx.ctr.Hooks {
 			for _, a := range h.Assigns {
 				if a.Kind == "assign" || a.Kind == "havoc" {
+					// the function's own ghost variables, updated by its hooks somewhere in the loop
 					ms.ghosts[ghostRoot(a.LHS)] = true
 				}
 			}
